@@ -337,7 +337,7 @@ StrayDrop ==
 
 \* The driver abandoned the program here (informational; the preceding quiesce
 \* record carries the obligation).
-Hung == Is("hung") /\ UNCHANGED <<chanVars, devs, aux>> /\ Next1
+Hung == Is("hung") /\ (\A d \in devs : PrintT(<<"DEV", d>>)) /\ UNCHANGED <<chanVars, devs, aux>> /\ Next1
 
 \* End of history: every handle is gone (HDrop checked the buffer is empty).
 End ==
